@@ -32,7 +32,7 @@ MANIFEST = dict(
          "placeholder value, the placeholder exchanged inside the string tokens. SPELLING EQUIVALENCE: every ordered pair of spellings of one string / "
          "integer / float (plain, raw, 3- and 5-quote, escaped, \\u{} / \\x, f-string; decimal, underscores, 0x / 0o / 0b; exponent forms) compared with "
          "== != < >= in, in case and filter (both operands literals: the compiler folds) must be equal; number spellings in arithmetic, ranges, take, "
-         "lag, round; dates / times / timestamps in comparisons, coalesce, case, ranges, group keys.",
+         "lag, round; dates / times / timestamps in comparisons, coalesce, case, ranges, group keys. The time-zone rewrite of temporal literals on SQLite is mirrored (Model.Lit.sqliteTz): sqlite_tz_only_inserts_a_colon (the only thing it ever does is to put a colon into a final [+-]dddd; every other text, in particular every text shorter than five characters, is left as it is - the function is total), sqlite_tz_short, sqlite_tz_idempotent; tie: the private kernel vs the mirror on every string of length <= 6 over {+ - : 0 9 a} (cargo feature verif). Every value also goes through the FORMATTED output (the default of Options and of the CLI).",
     note="floats are compared through SQLite as f64 bit patterns (no IEEE model in Lean: floats are outside the theorems); dates and times "
          "are tied by correspondence only; the 11 non-SQLite dialects are judged by sqlparser's tokenizer for the dialect, not by a database. "
          "Fixed in /repo: the string printer's 'already escaped' heuristic (938f352). Open findings: backslash as data on backslash-escaping "
